@@ -14,6 +14,8 @@ def main(tier, seed):
     for rules, on_step in plan:
         jobs.append(("props.timeouts", "run_rules", (rules, on_step, dict(policy="fifo", k=k, max_paths=600 if tier == "quick" else 6000), "C19")))
     c.run_jobs(jobs)
+    if tier != "quick":
+        c.run_kani(['timeout_as_secs'])
     return c.finish(
         rule="one path = rule set on an act or a step x sequence of k events from {tick, answer the timed act} x outcome class of every elapsed-time comparison; the clock is one "
              "symbolic variable per reading (non-decreasing); 'never early' and 'fires when due' are validity queries over those variables",
